@@ -3,6 +3,7 @@
 package handshake
 
 import (
+	"sync"
 	"net"
 	"time"
 )
@@ -17,4 +18,15 @@ func VerifReadMessage(conn net.Conn, timeout time.Duration, chunk []byte) (any, 
 func VerifWriteMessage(conn net.Conn, message any) error {
 	h := &handshake{}
 	return h.writeMessage(conn, message)
+}
+
+// VerifMakeDecodeErrCache builds the decode-side error cache exactly as Start/Accept do from the
+// node's own table of registered errors (local) and the table the peer announced (remote).
+func VerifMakeDecodeErrCache(local, remote map[uint16]error) *sync.Map {
+	return (&handshake{}).makeDecodeErrCache(local, remote)
+}
+
+// VerifMakeEncodeErrCache builds the encode-side error cache from the node's own table.
+func VerifMakeEncodeErrCache(local map[uint16]error) *sync.Map {
+	return (&handshake{}).makeEncodeErrCache(local)
 }
